@@ -217,8 +217,9 @@ def brackets(in_file, in_encoding, **params):
             elif lexclass == "RRB":
                 if state in [0]:
                     pass
-                elif state in [2, 4, 5]:
-                    if state == 2:
+                elif state in [2, 4, 5] \
+                        or (state == 3 and 'brackets_emptypos' in params):
+                    if state in [2, 3]:
                         if not 'brackets_emptypos' in params:
                             raise ValueError("expected whitespace or (, got )")
                         else:
